@@ -143,6 +143,51 @@ def run(ctx):
                       f.where(b), "condition %s reads %s" % (fmt(cond)[:140], "; ".join(sorted({fmt(s)[:80] for s in srcs}))) if srcs else fmt(cond)[:140])
     ctx.floor("R17.5", "assert!-style preconditions analysed", n_assert, 12)
 
+    # ---- R17.11 builder preconditions (sibling agreement): every setter of the configuration builder that stores a plain
+    # integer argument first asserts something about that very argument (`> 0`, `> 1`, power of two).  These asserts are
+    # what makes `% len`, `x / n`, `vec![..; n]` on those values safe deep inside reader and worker code; a setter that
+    # stores its integer unchecked is the deviant one.
+    INTS = ("usize", "u64", "u32", "i64", "u16", "u8", "i32")
+    n_set = 0
+    for name, f in sorted(F.fns.items()):
+        st_ = (f.rec.get("self_ty") or "")
+        if f.kind == "Closure" or not st_.split("<")[0].endswith("ConfigBuilder") or not f.rec.get("reachable") or f.argc < 2:
+            continue
+        ints = [i for i in range(2, f.argc + 1) if f.locals[i]["ty"] in INTS]
+        if not ints:
+            continue
+        stored = []
+        for b in sorted(f.live_blocks()):
+            for st in f.blocks[b]["stmts"]:
+                if st["k"] == "assign":
+                    e = f.origin_rvalue(st["rv"])
+                    for i in ints:
+                        if mentions(e, lambda s_, i=i: s_ == ("param", i)) and (st["place"]["p"] or st["rv"]["k"] == "agg"):
+                            stored.append(i)
+        asserted = set()
+        for b in sorted(f.live_blocks()):
+            t = f.term(b)
+            if t["k"] == "call" and "panicking::" in t["callee"] and t.get("target") is None:
+                g = guarding_branch(f, b)
+                if g:
+                    for i in ints:
+                        if mentions(g[1], lambda s_, i=i: s_ == ("param", i)):
+                            asserted.add(i)
+        # (an `ensure(cond, error)` helper that panics when its argument is false counts as the assert it wraps)
+        for b, t in f.calls():
+            h = F.fns.get(t.get("rpath") or "")
+            if h is not None and t["res"] == "item" and any("panicking::" in t2["callee"] for b2, t2 in h.calls()):
+                for a_ in t["args"]:
+                    e = f.op_origin(a_)
+                    for i in ints:
+                        if mentions(e, lambda s_, i=i: s_ == ("param", i)):
+                            asserted.add(i)
+        for i in sorted(set(stored)):
+            n_set += 1
+            ctx.check(i in asserted, "R17.11", "%s|integer-setting-asserted|%s" % (name, f.locals[i].get("name") or i),
+                      "a builder method that stores an integer setting asserts a precondition on it first (like its siblings): zero sizes would panic readers (`% 0`), the worker or a background thread later", f.where())
+    ctx.floor("R17.11", "integer settings stored by the configuration builder", n_set, 4)
+
     # ---- R17.2 panicking time arithmetic --------------------------------------------------------------
     n_time = 0
     for name, f in F.fns.items():
